@@ -18,47 +18,76 @@ import (
 	"github.com/tink-crypto/tink-go/v2/hybrid"
 	"github.com/tink-crypto/tink-go/v2/insecurecleartextkeyset"
 	"github.com/tink-crypto/tink-go/v2/jwt"
+	"github.com/tink-crypto/tink-go/v2/key"
 	"github.com/tink-crypto/tink-go/v2/keyderivation"
 	"github.com/tink-crypto/tink-go/v2/keyset"
 	"github.com/tink-crypto/tink-go/v2/mac"
 	"github.com/tink-crypto/tink-go/v2/prf"
 	"github.com/tink-crypto/tink-go/v2/signature"
+	"github.com/tink-crypto/tink-go/v2/signprehash"
 	"github.com/tink-crypto/tink-go/v2/streamingaead"
 	"github.com/tink-crypto/tink-go/v2/verifharness/hx"
 
+	thpke "github.com/tink-crypto/tink-go/v2/hybrid/hpke"
 	tinkpb "github.com/tink-crypto/tink-go/v2/proto/tink_go_proto"
+	tmldsa "github.com/tink-crypto/tink-go/v2/signature/mldsa"
+	tslhdsa "github.com/tink-crypto/tink-go/v2/signature/slhdsa"
 )
 
 type tmpl struct {
 	class, name string
 	t           func() *tinkpb.KeyTemplate
+	params      func() key.Parameters // used when t is nil
+	slow        bool                  // slow primitive: fewer iterations
+}
+
+func must[T any](v T, err error) T {
+	if err != nil {
+		panic(err)
+	}
+	return v
 }
 
 var templates = []tmpl{
-	{"aead", "AES128GCM", aead.AES128GCMKeyTemplate},
-	{"aead", "AES256CTRHMACSHA256", aead.AES256CTRHMACSHA256KeyTemplate},
-	{"aead", "ChaCha20Poly1305", aead.ChaCha20Poly1305KeyTemplate},
-	{"aead", "XChaCha20Poly1305", aead.XChaCha20Poly1305KeyTemplate},
-	{"aead", "AES256GCMSIV", aead.AES256GCMSIVKeyTemplate},
-	{"aead", "XAES256GCM192", aead.XAES256GCM192BitNonceKeyTemplate},
-	{"daead", "AESSIV", daead.AESSIVKeyTemplate},
-	{"mac", "HMACSHA256Tag128", mac.HMACSHA256Tag128KeyTemplate},
-	{"mac", "HMACSHA512Tag512", mac.HMACSHA512Tag512KeyTemplate},
-	{"mac", "AESCMACTag128", mac.AESCMACTag128KeyTemplate},
-	{"prf", "HMACSHA256PRF", prf.HMACSHA256PRFKeyTemplate},
-	{"prf", "HKDFSHA256PRF", prf.HKDFSHA256PRFKeyTemplate},
-	{"prf", "AESCMACPRF", prf.AESCMACPRFKeyTemplate},
-	{"sig", "ECDSAP256", signature.ECDSAP256KeyTemplate},
-	{"sig", "ECDSAP384SHA512", signature.ECDSAP384SHA512KeyTemplate},
-	{"sig", "ED25519", signature.ED25519KeyTemplate},
-	{"hyb", "HPKE-X25519-AES128GCM", hybrid.DHKEM_X25519_HKDF_SHA256_HKDF_SHA256_AES_128_GCM_Key_Template},
-	{"hyb", "HPKE-P256-AES256GCM", hybrid.DHKEM_P256_HKDF_SHA256_HKDF_SHA256_AES_256_GCM_Key_Template},
-	{"hyb", "ECIES-AES128GCM", hybrid.ECIESHKDFAES128GCMKeyTemplate},
-	{"stream", "AES128GCMHKDF4KB", streamingaead.AES128GCMHKDF4KBKeyTemplate},
-	{"stream", "AES128CTRHMACSHA256Segment4KB", streamingaead.AES128CTRHMACSHA256Segment4KBKeyTemplate},
-	{"jwtmac", "HS256", jwt.HS256Template},
-	{"jwtsig", "ES256", jwt.ES256Template},
-	{"derive", "PRFBased-AES128GCM", func() *tinkpb.KeyTemplate {
+	{class: "aead", name: "AES128GCM", t: aead.AES128GCMKeyTemplate},
+	{class: "aead", name: "AES256CTRHMACSHA256", t: aead.AES256CTRHMACSHA256KeyTemplate},
+	{class: "aead", name: "ChaCha20Poly1305", t: aead.ChaCha20Poly1305KeyTemplate},
+	{class: "aead", name: "XChaCha20Poly1305", t: aead.XChaCha20Poly1305KeyTemplate},
+	{class: "aead", name: "AES256GCMSIV", t: aead.AES256GCMSIVKeyTemplate},
+	{class: "aead", name: "XAES256GCM192", t: aead.XAES256GCM192BitNonceKeyTemplate},
+	{class: "daead", name: "AESSIV", t: daead.AESSIVKeyTemplate},
+	{class: "mac", name: "HMACSHA256Tag128", t: mac.HMACSHA256Tag128KeyTemplate},
+	{class: "mac", name: "HMACSHA512Tag512", t: mac.HMACSHA512Tag512KeyTemplate},
+	{class: "mac", name: "AESCMACTag128", t: mac.AESCMACTag128KeyTemplate},
+	{class: "prf", name: "HMACSHA256PRF", t: prf.HMACSHA256PRFKeyTemplate},
+	{class: "prf", name: "HKDFSHA256PRF", t: prf.HKDFSHA256PRFKeyTemplate},
+	{class: "prf", name: "AESCMACPRF", t: prf.AESCMACPRFKeyTemplate},
+	{class: "sig", name: "ECDSAP256", t: signature.ECDSAP256KeyTemplate},
+	{class: "sig", name: "ECDSAP384SHA512", t: signature.ECDSAP384SHA512KeyTemplate},
+	{class: "sig", name: "ED25519", t: signature.ED25519KeyTemplate},
+	{class: "sig", name: "RSASSAPSS3072", t: signature.RSA_SSA_PSS_3072_SHA256_32_F4_Key_Template, slow: true},
+	{class: "sig", name: "RSASSAPKCS1-3072", t: signature.RSA_SSA_PKCS1_3072_SHA256_F4_Key_Template, slow: true},
+	{class: "sig", name: "MLDSA65", params: func() key.Parameters { return must(tmldsa.NewParameters(tmldsa.MLDSA65, tmldsa.VariantTink)) }},
+	{class: "sig", name: "SLHDSA-SHA2-128s", slow: true, params: func() key.Parameters {
+		return must(tslhdsa.NewParameters(tslhdsa.SHA2, 64, tslhdsa.SmallSignature, tslhdsa.VariantTink))
+	}},
+	{class: "prehash", name: "MLDSA44-prehash", params: func() key.Parameters {
+		return must(tmldsa.NewParameters(tmldsa.MLDSA44, tmldsa.VariantNoPrefixWithPrehashID))
+	}},
+	{class: "hyb", name: "HPKE-XWING-AES256GCM", params: func() key.Parameters {
+		return must(thpke.NewParameters(thpke.ParametersOpts{KEMID: thpke.X_WING, KDFID: thpke.HKDFSHA256, AEADID: thpke.AES256GCM, Variant: thpke.VariantTink}))
+	}},
+	{class: "hyb", name: "HPKE-MLKEM768-AES128GCM", params: func() key.Parameters {
+		return must(thpke.NewParameters(thpke.ParametersOpts{KEMID: thpke.ML_KEM768, KDFID: thpke.HKDFSHA256, AEADID: thpke.AES128GCM, Variant: thpke.VariantTink}))
+	}},
+	{class: "hyb", name: "HPKE-X25519-AES128GCM", t: hybrid.DHKEM_X25519_HKDF_SHA256_HKDF_SHA256_AES_128_GCM_Key_Template},
+	{class: "hyb", name: "HPKE-P256-AES256GCM", t: hybrid.DHKEM_P256_HKDF_SHA256_HKDF_SHA256_AES_256_GCM_Key_Template},
+	{class: "hyb", name: "ECIES-AES128GCM", t: hybrid.ECIESHKDFAES128GCMKeyTemplate},
+	{class: "stream", name: "AES128GCMHKDF4KB", t: streamingaead.AES128GCMHKDF4KBKeyTemplate},
+	{class: "stream", name: "AES128CTRHMACSHA256Segment4KB", t: streamingaead.AES128CTRHMACSHA256Segment4KBKeyTemplate},
+	{class: "jwtmac", name: "HS256", t: jwt.HS256Template},
+	{class: "jwtsig", name: "ES256", t: jwt.ES256Template},
+	{class: "derive", name: "PRFBased-AES128GCM", t: func() *tinkpb.KeyTemplate {
 		t, err := keyderivation.CreatePRFBasedKeyTemplate(prf.HKDFSHA256PRFKeyTemplate(), aead.AES128GCMKeyTemplate())
 		if err != nil {
 			panic(err)
@@ -80,10 +109,16 @@ func handleFor(t tmpl) *keyset.Handle {
 	}
 	// two keys, the second one primary, so that the prefix map has two entries
 	m := keyset.NewManager()
-	if _, err := m.Add(t.t()); err != nil {
+	add := func() (uint32, error) {
+		if t.t != nil {
+			return m.Add(t.t())
+		}
+		return m.AddNewKeyFromParameters(t.params())
+	}
+	if _, err := add(); err != nil {
 		panic(fmt.Sprintf("%s: %v", t.name, err))
 	}
-	id, err := m.Add(t.t())
+	id, err := add()
 	if err != nil {
 		panic(err)
 	}
@@ -156,7 +191,54 @@ func runTemplate(name string, iters int, r *hx.Rng) string {
 	}
 	h := handleFor(t)
 	ad := []byte("associated data")
+	if t.slow {
+		iters = iters/10 + 1
+	}
 	switch t.class {
+	case "prehash":
+		// one Prehash object and one PrehashSigner shared by all workers; short and long messages
+		ph, err := h.Public()
+		if err != nil {
+			return "DIFF " + err.Error()
+		}
+		pr, err1 := signprehash.NewPrehash(ph)
+		ps, err2 := signprehash.NewPrehashSigner(h)
+		v, err3 := signature.NewVerifier(ph)
+		if err1 != nil || err2 != nil || err3 != nil {
+			return fmt.Sprintf("DIFF %v %v %v", err1, err2, err3)
+		}
+		// sequential oracle: the prehash of each message this run can produce
+		want := map[string]string{}
+		for w := 0; w < workers; w++ {
+			for i := 0; i < iters; i++ {
+				m := msgFor(r, w, i)
+				pre, err := pr.ComputePrehash(m)
+				if err != nil {
+					return "DIFF sequential ComputePrehash: " + err.Error()
+				}
+				want[string(m)] = string(pre)
+			}
+		}
+		return hammer(iters, func(w, i int) string {
+			m := msgFor(r, w, i)
+			pre, err := pr.ComputePrehash(m)
+			if err != nil {
+				return "prehash: " + err.Error()
+			}
+			if want[string(m)] != string(pre) {
+				return "concurrent ComputePrehash differs from the sequential value"
+			}
+			if i%8 == 0 {
+				sig, err := ps.SignPrehash(pre)
+				if err != nil {
+					return "signprehash: " + err.Error()
+				}
+				if err := v.Verify(sig, m); err != nil {
+					return "prehash signature rejected by the ordinary verifier"
+				}
+			}
+			return ""
+		})
 	case "aead":
 		p, err := aead.New(h)
 		if err != nil {
@@ -537,7 +619,7 @@ func runHandleReads(iters int, r *hx.Rng) string {
 			if _, err := mac.New(h); err != nil {
 				return "concurrent mac.New failed: " + err.Error()
 			}
-		case "sig", "hyb", "jwtsig":
+		case "sig", "hyb", "jwtsig", "prehash":
 			if _, err := h.Public(); err != nil {
 				return "concurrent Public failed: " + err.Error()
 			}
